@@ -79,7 +79,10 @@ def run(tier: str, seed: int) -> CompResult:
         mark = SimpleNamespace(args=(g,), kwargs={}) if style == 0 else SimpleNamespace(args=(), kwargs={"name": g} if style == 1 else {})
         want = g if style < 2 else "default"
         item = SimpleNamespace(nodeid=nid, _nodeid=nid, get_closest_marker=lambda name, m=mark: m if name == "xdist_group" else None)
-        WorkerInteractor.pytest_collection_modifyitems(None, SimpleNamespace(getvalue=lambda name: True), [item])  # type: ignore[arg-type]
+        cfg = SimpleNamespace(getvalue=lambda name: True)
+        wi = object.__new__(WorkerInteractor)      # a real instance (helper methods reachable through `self`), without a channel
+        wi.config = cfg
+        wi.pytest_collection_modifyitems(cfg, [item])  # type: ignore[arg-type]
         lines.append(f"tag {esc(nid)} {esc(want)}")
         impl.append(esc(item._nodeid))
     # key soundness on pairs (C06a), independent of the model
